@@ -75,14 +75,17 @@ Print Assumptions C01_compile_correct_Z.
 (* the code on every run (T:compile-literal, planner, T:compile-rejected).                     *)
 (*                                                                                              *)
 (* Semantics (Model/MpcCompileSem.v): the ring reading with PRF nodes and constants as atoms;   *)
-(* the Custom nodes AddMPC / SubtractMPC / MultiplyMPC are read by their SPECIFICATION         *)
-(* (transcribed from their instantiate functions); that the instantiated gadget graphs meet it *)
-(* is not proved here but checked by the T:ring obligations on the fully instantiated output   *)
-(* of compile_context.  Share-wise lifted unary operations are abstract additive maps.         *)
+(* the Custom nodes AddMPC / SubtractMPC / <bilinear>MPC are read by a specification           *)
+(* [gadget_sem], and C01_deep_gadget_bodies proves that the gadget BODIES ([gadget_body], the    *)
+(* mirror of instantiate, tied literally by T:gadget-literal) compute exactly this.  What is    *)
+(* not modelled: the instantiation pass and the inliner that splice the bodies into the graph  *)
+(* (C08 / C07), covered end to end by the T:ring obligations on compile_context's output.      *)
+(* Share-wise lifted unary operations and Dot/Matmul/Gemm are abstract additive / bi-additive  *)
+(* maps of the ring.                                                                            *)
 (* ====================================================================================== *)
 From CC Require Import Base.Scalar Base.Ty Base.Shape Graph.Value Graph.IR Graph.Eval Graph.Typing
   Model.RingEval Model.MpcCompile Model.MpcCompileSem
-  Proofs.MpcCompileBase Proofs.MpcCompileStatic Proofs.MpcCompileProofs.
+  Proofs.MpcCompileBase Proofs.MpcCompileStatic Proofs.MpcCompileProofs Proofs.MpcCompileGadgets.
 
 (* Structure, for EVERY program of the mirrored fragment (all of mpc_mirrored), every privacy
    vector: dependencies of the compiled graph point backwards, the node map is total on the
@@ -165,6 +168,24 @@ Proof.
   - exact Hrel.
 Qed.
 
+(* The gadget specifications are what the gadget bodies compute: for AddMPC, SubtractMPC,
+   MultiplyMPC, DotMPC, MatmulMPC, GemmMPC and every pair of argument types, the graph built by
+   [gadget_body] (mirror of CustomOperationBody::instantiate, tied literally by T:gadget-literal),
+   evaluated by the same ring reading on argument values of the right shape, returns
+   [gadget_sem] of these values.  So the Custom-node reading used by
+   C01_deep_compile_correct_partial is not an assumption about the gadgets. *)
+Theorem C01_deep_gadget_bodies :
+  forall (R : Type) (r0 : R) (radd rmul rsub : R -> R -> R) (atom : Z -> R) (catom : value -> R) (one : R)
+         (lin : op -> R -> R) (bil : op -> R -> R -> R) g t0 t1 body oid va vb,
+  elem_gadget g = true ->
+  gadget_body g [t0; t1] = Ok (body, oid) ->
+  shape_ok R t0 va -> shape_ok R t1 vb ->
+  exists env v,
+    deval R r0 radd rmul rsub atom catom one lin bil body [va; vb] = Some env /\
+    znth env oid = Ok v /\
+    gadget_sem R r0 radd rmul rsub bil g [va; vb] = Some v.
+Proof. exact gadget_body_sem. Qed.
+
 (* the full statement (not proved): every operation the compiler accepts, values of every type
    (tuples, vectors, named tuples), the gadget specifications replaced by the evaluation of
    their instantiated graphs, and Graph/Eval.v instead of the ring reading *)
@@ -240,3 +261,4 @@ Qed.
 Print Assumptions C01_deep_structure.
 Print Assumptions C01_deep_compile_correct_partial.
 Print Assumptions C01_deep_output_correct_partial.
+Print Assumptions C01_deep_gadget_bodies.
